@@ -88,6 +88,7 @@ type lexState struct {
 	nlUnknown  bool                                   // a byte that may or may not be a line break was consumed
 	sawNL      bool                                   // a line break was consumed
 	atStartSet bool                                   // the line-start flag was set to true
+	flagCleared bool                                  // the line-start flag was set to false: this token is scanned at the start of a line
 	posSnap    map[types.Object]bool                  // start := l.position(): snapshot variables that hold a Position
 	sigAt      map[types.Object]bool                  // per snapshot: value of sig when it was taken
 	lead       map[types.Object]bool                  // per snapshot: input was consumed between an earlier position snapshot and this one
@@ -144,7 +145,7 @@ func newLexState() *lexState {
 
 func (s *lexState) clone() *lexState {
 	n := &lexState{ne: s.ne, atEOF: s.atEOF, B: s.B, adv: s.adv, since: map[types.Object]bool{}, snaps: map[types.Object]snapState{}, byteVar: map[types.Object]bool{}, runeVar: map[types.Object]bool{}, sizeVar: map[types.Object]bool{}, valSet: map[types.Object]bset{}, valueOf: map[types.Object]types.Object{},
-		sig: s.sig, nl: s.nl, nlUnknown: s.nlUnknown, sawNL: s.sawNL, atStartSet: s.atStartSet, posSnap: map[types.Object]bool{}, sigAt: map[types.Object]bool{}, lead: map[types.Object]bool{},
+		sig: s.sig, nl: s.nl, nlUnknown: s.nlUnknown, sawNL: s.sawNL, atStartSet: s.atStartSet, flagCleared: s.flagCleared, posSnap: map[types.Object]bool{}, sigAt: map[types.Object]bool{}, lead: map[types.Object]bool{},
 		notAfter: map[types.Object]map[types.Object]bool{}, epoch: append([]types.Object(nil), s.epoch...)}
 	for k, v := range s.notAfter {
 		m := map[types.Object]bool{}
@@ -206,7 +207,7 @@ func (s *lexState) key() string {
 		}
 	}
 	sort.Strings(ks)
-	return fmt.Sprintf("%v|%v|%v|%s|%v|%d|%v|%v|%v", s.adv, s.ne, s.atEOF, strings.Join(ks, ","), s.sig, s.nl, s.nlUnknown, s.sawNL, s.atStartSet)
+	return fmt.Sprintf("%v|%v|%v|%s|%v|%d|%v|%v|%v|%v", s.adv, s.ne, s.atEOF, strings.Join(ks, ","), s.sig, s.nl, s.nlUnknown, s.sawNL, s.atStartSet, s.flagCleared)
 }
 
 func joinStates(a, b *lexState) *lexState {
@@ -333,6 +334,7 @@ const (
 )
 
 type lexInterp struct {
+	nStop, nFirst int
 	c       *Ctx
 	pk      *packagesPackage
 	info    *types.Info
@@ -440,6 +442,10 @@ func ruleLexer(c *Ctx) {
 	c.census("L-PROGRESS", "token returns interpreted (over all calling contexts)", li.nReturns, 20)
 	c.census("L-NEWLINE", "position-advancing sites interpreted (over all calling contexts)", li.nAdvances, 20)
 	c.census("L-POS", "token constructions interpreted (over all calling contexts)", li.nTok, 20)
+	if c.Prop == "C03" {
+		c.census("L-STOP", "returns of free-text tokens with a known stop-byte set", li.nStop, 2)
+		c.census("L-FIRST", "in-line comment tokens with a known first byte", li.nFirst, 1)
+	}
 }
 
 // ruleLexPos: the interpreter's L-POS obligations only (for properties that need token positions but not
@@ -2041,6 +2047,11 @@ func (li *lexInterp) assignLexerField(lhs ast.Expr, rhs ast.Expr, tok token.Toke
 		} else if rhs == nil || identOf(rhs).Name != "false" {
 			for _, st := range out {
 				st.atStartSet = true // unknown value: may be true
+				st.flagCleared = true
+			}
+		} else {
+			for _, st := range out {
+				st.flagCleared = true
 			}
 		}
 		return out
@@ -2423,6 +2434,7 @@ func (li *lexInterp) checkReturn(s *ast.ReturnStmt, in []*lexState, fr *lexFrame
 		}
 		// ---- L-POS: where the token starts
 		li.checkPos(s, st, fr, tp, desc)
+		li.checkStop(s, st, fr, tp, desc)
 		if kind == "TokenEOF" {
 			if st.atEOF {
 				li.okOnce("L-PROGRESS", fr, desc, s.Pos(), "the end-of-input token is returned only when pos >= len(input)")
@@ -2493,6 +2505,67 @@ func (li *lexInterp) checkPos(s *ast.ReturnStmt, st *lexState, fr *lexFrame, tp 
 				}
 				if so := li.info.Uses[identOf(low)]; so != nil && st.lead[so] {
 					li.dropKinds[tp.kind] = true
+				}
+			}
+		}
+	}
+}
+
+// stopSets: the bytes at which the scanner of a free-text token kind may stop, by the grammar of DESIGN §4.2
+// (a description is any text without ';' '|' and a line break; a comment runs to the end of its line; an account
+// name ends at a blank (followed by a second one), a tab, a line end, or one of ; @ = ( ) [ ]).
+var stopSets = map[string]string{
+	"TokenText":    "\n;|",
+	"TokenComment": "\n",
+	"TokenAccount": " \t\n\r;@=()[]",
+}
+
+func setOf(chars string) bset {
+	var b bset
+	for i := 0; i < len(chars); i++ {
+		b.add(int(chars[i]))
+	}
+	return b
+}
+
+func (b bset) count() int {
+	n := 0
+	for c := 0; c < 256; c++ {
+		if b.has(c) {
+			n++
+		}
+	}
+	return n
+}
+
+// checkStop (L-STOP, L-FIRST): lexical facts read off the interpretation at a token return.
+// L-STOP: for the free-text kinds the byte the scanner stopped at (the possible current bytes at the return,
+// when the interpretation knows them as a small set) is one of the kind's delimiters: a further stop byte cuts
+// every description / comment / account name that contains it.
+// L-FIRST: a comment token whose scan did not start at the beginning of a line (the line-start flag was not
+// cleared on the way) begins with ';'.
+func (li *lexInterp) checkStop(s *ast.ReturnStmt, st *lexState, fr *lexFrame, tp tokenPartsT, desc string) {
+	if li.c.Prop != "C03" {
+		return // a lexical-grammar fact: part of "supported journals parse faithfully" only
+	}
+	if allowed, ok := stopSets[tp.kind]; ok && st.ne && st.B.count() <= 32 {
+		li.nStop++
+		extra := st.B.and(setOf(allowed).not())
+		if extra.empty() {
+			li.okOnce("L-STOP", fr, "stop bytes at "+desc, s.Pos(), "the scanner of this free-text token stops only at the delimiters of its kind ("+st.B.String()+")")
+		} else {
+			li.findOnce("L-STOP", fr, "stop bytes at "+desc, s.Pos(), "the scanner of "+tp.kind+" also stops at "+extra.String()+", which the journal grammar allows inside such text: a description, comment or account name containing that character is cut there and the rest of the line is read as something else")
+		}
+	}
+	if tp.kind == "TokenComment" && !st.flagCleared {
+		if o := li.info.Uses[identOf(tp.pos)]; tp.pos != nil && o != nil {
+			if sn, ok := st.snaps[o]; ok && sn.ne && sn.B.count() <= 32 {
+				li.nFirst++
+				extra := sn.B.and(single(';').not())
+				if extra.empty() {
+					li.okOnce("L-FIRST", fr, "first byte at "+desc, s.Pos(), "inside a line a comment token starts at ';' only")
+				} else {
+					li.findOnce("L-FIRST", fr, "first byte at "+desc, s.Pos(), "inside a line (not at its first column) a comment token can start at "+extra.String()+": text after that character in a description, note or account is swallowed as a comment")
 				}
 			}
 		}
